@@ -65,7 +65,8 @@ def cases(draw):
     # large batches drain a bound's 1000-point proposal cache several times
     # within one case (cache refills between two checkpoints)
     n_batch = draw(st.sampled_from([1, 2, 3, 5, 8, 13, 100, 250]))
-    cfg = draw(sl.configs(d, networks=(0, 0, 1), pools=('none',),
+    cfg = draw(sl.configs(d, networks=(0, 0, 1),
+                          pools=('none', 'none', 'none', 'spool2'),
                           batch=st.just(n_batch), small_update=False,
                           max_live=int(min(80, max(4 * d + 4, 5 * n_batch)))))
     cfg['f_live'] = draw(st.sampled_from([0.8, 0.6, 0.4]))
@@ -327,6 +328,7 @@ def run_case(case, tier='quick', only_k=None):
         res.cls('explored', explored_at is not None)
         res.cls('Prior_object', spec['prior'] == 'Prior')
         res.cls('vectorized', cfg['vectorized'])
+        res.cls('sampler_pool', cfg['pool'] != 'none')
         res.nontrivial = len(nt) > 0
         res.extra_nontrivial = nt
     finally:
